@@ -72,8 +72,12 @@ class Generator(CodeGenerator):
         def check_duplicate_can_ids(
             self: Any, fcp: FcpV2, impl: Impl
         ) -> Result[Nil, FcpError]:
-            impl_ids = [impl.fields.get("id") for impl in fcp.impls]
-            if impl_ids.count(impl.fields.get("id")) > 1:
+            can_ids = [i.fields.get("id") for i in fcp.impls if i.protocol == "can"]
+            if (
+                impl.protocol == "can"
+                and impl.fields.get("id") is not None
+                and can_ids.count(impl.fields.get("id")) > 1
+            ):
                 return error("Duplicate ids", node=impl)
             else:
                 return Ok(())
